@@ -88,6 +88,13 @@ func runC18(c *core.Ctx) {
 	k := gen.NewKit(r, format)
 	k.Rows, k.HF = 1, false // payloads may contain line breaks; keep the record shape simple
 	n := r.Range(2, 8)
+	bulk := r.Chance(1, 6)
+	if bulk {
+		// inputs several read buffers long, dense in bytes whose UTF-8 form is two or three bytes long: decoded sequences straddle
+		// whatever buffer boundaries the decoder and its consumers have
+		n = r.Range(150, 500)
+		c.Inc("bulk_inputs")
+	}
 	var recs []gen.Rec
 	var payloads [][]byte
 	for i := 0; i < n; i++ {
@@ -99,6 +106,18 @@ func runC18(c *core.Ctx) {
 			case i == 0 && j == 0:
 				// the deterministic sweep: two byte values per case
 				p = []byte{byte(slot * 2 % 256), 'a', byte((slot*2 + 1) % 256)}
+			case bulk:
+				ln := r.Range(1, 6)
+				for x := 0; x < ln; x++ {
+					switch r.Intn(3) {
+					case 0:
+						p = append(p, byte(0x80+r.Intn(0x20))) // windows-1252: mostly three bytes of UTF-8
+					case 1:
+						p = append(p, byte(0xA0+r.Intn(0x60))) // two bytes
+					default:
+						p = append(p, byte('a'+r.Intn(26)))
+					}
+				}
 			case r.Chance(1, 3):
 				st := []byte(",;|\"'*~?:<>&\r\n\t {}[]\\")
 				p = []byte{byte(r.Intn(256)), st[r.Intn(len(st))], byte(r.Intn(256))}
